@@ -87,7 +87,16 @@ var angles = []float64{0, 30, 45, 90, -60, 12.5, 180, 360, -90, 1, 75, 135, 0.5}
 
 var fonts = render.NewPango()
 
+// set while generating translate() arguments of the end-to-end stream
+var allowEm = false
+
 func cssDim(r *vlib.Rng, allowPct bool) (text string, coq string) {
+	if allowEm && r.Chance(1, 3) {
+		v := vlib.Pick(r, []float64{0, 1, 2, -1.5, 0.5, 3.25, 10})
+		s := strconv.FormatFloat(v, 'f', -1, 64)
+		f, _ := strconv.ParseFloat(s, 32)
+		return s + "em", "(Em " + vlib.Q32(fl(f)) + ")"
+	}
 	if allowPct && r.Chance(1, 3) {
 		v := vlib.Pick(r, []float64{0, 10, 25, 50, 100, -50, 33, 12.5})
 		s := strconv.FormatFloat(v, 'f', -1, 64)
@@ -100,7 +109,7 @@ func cssDim(r *vlib.Rng, allowPct bool) (text string, coq string) {
 	return s + "px", "(Px " + vlib.Q32(fl(f)) + ")"
 }
 
-func cssCase(r *vlib.Rng) (vlib.Case, bool) {
+func cssCase(r *vlib.Rng) []vlib.Case {
 	units := []string{"deg", "grad", "rad", "turn"}
 	coqUnits := []string{"Deg", "Grad", "Rad", "Turn"}
 	factor := []fl{math.Pi / 180, math.Pi / 200, 1, 2 * math.Pi}
@@ -160,17 +169,25 @@ func cssCase(r *vlib.Rng) (vlib.Case, bool) {
 			a, q := angle()
 			name, args, src = "skew", []string{a}, "CSkew1 "+q
 		case 4:
+			allowEm = true
 			x, q := cssDim(r, true)
+			allowEm = false
 			name, args, src = "translate", []string{x}, "CTranslate1 "+q
 		case 5:
+			allowEm = true
 			x, q := cssDim(r, true)
 			y, qy := cssDim(r, true)
+			allowEm = false
 			name, args, src = "translate", []string{x, y}, "CTranslate2 "+q+" "+qy
 		case 6:
+			allowEm = true
 			x, q := cssDim(r, true)
+			allowEm = false
 			name, args, src = "translateX", []string{x}, "CTranslateX "+q
 		case 7:
+			allowEm = true
 			x, q := cssDim(r, true)
+			allowEm = false
 			name, args, src = "translateY", []string{x}, "CTranslateY "+q
 		case 8:
 			x, q := num()
@@ -212,11 +229,15 @@ func cssCase(r *vlib.Rng) (vlib.Case, bool) {
 		}
 		origin = "transform-origin: " + ox + " " + oy + ";"
 	}
-	style := fmt.Sprintf("position:absolute; left:%dpx; top:%dpx; width:%dpx; height:%dpx; padding:%dpx; border:%dpx solid red; transform: %s; %s",
-		r.Range(0, 300), r.Range(0, 300), r.Range(1, 300), r.Range(1, 200), r.Range(0, 9), r.Range(0, 5), strings.Join(parts, " "), origin)
-	html := `<html><body style="margin:0"><div id=t style="` + style + `"></div></body></html>`
-	var g string
-	found := false
+	// two boxes share ONE rule carrying the transform (the declared value is shared by both
+	// elements), with different font sizes, so em arguments resolve differently per element
+	rule := fmt.Sprintf(".t { position:absolute; transform: %s; %s }", strings.Join(parts, " "), origin)
+	boxStyle := func() string {
+		return fmt.Sprintf("left:%dpx; top:%dpx; width:%dpx; height:%dpx; padding:%dpx; border:%dpx solid red; font-size:%dpx",
+			r.Range(0, 300), r.Range(0, 300), r.Range(1, 300), r.Range(1, 200), r.Range(0, 9), r.Range(0, 5), vlib.Pick(r, []int{8, 10, 16, 20, 40}))
+	}
+	html := `<html><head><style>` + rule + `</style></head><body style="margin:0"><div class=t id=a style="` + boxStyle() + `"></div><div class=t id=b style="` + boxStyle() + `"></div></body></html>`
+	var gs []string
 	var pages []*bo.PageBox
 	o := render.Guard(func() {
 		var err error
@@ -226,12 +247,11 @@ func cssCase(r *vlib.Rng) (vlib.Case, bool) {
 		}
 	})
 	if o.Status != "ok" || len(pages) != 1 {
-		return vlib.Case{}, false
+		return nil
 	}
 	render.Walk(pages[0], func(b bo.Box, d int) {
 		bx := b.Box()
-		if bx.Element != nil && bx.ElementTag() == "div" && !found {
-			found = true
+		if bx.Element != nil && bx.ElementTag() == "div" {
 			or := bx.Style.GetTransformOrigin()
 			dim := func(d pr.Dimension) string {
 				if d.Unit == pr.Perc {
@@ -239,13 +259,13 @@ func cssCase(r *vlib.Rng) (vlib.Case, bool) {
 				}
 				return "(Px " + vlib.Q32(fl(d.Value)) + ")"
 			}
-			g = fmt.Sprintf("{| bbx := %s; bby := %s; bw := %s; bh := %s; orx := %s; ory := %s |}",
+			gs = append(gs, fmt.Sprintf("{| bbx := %s; bby := %s; bw := %s; bh := %s; orx := %s; ory := %s; fsz := %s |}",
 				vlib.Q32(fl(bx.BorderBoxX())), vlib.Q32(fl(bx.BorderBoxY())), vlib.Q32(fl(bx.BorderWidth())), vlib.Q32(fl(bx.BorderHeight())),
-				dim(or[0]), dim(or[1]))
+				dim(or[0]), dim(or[1]), vlib.Q32(fl(bx.Style.GetFontSize().Value))))
 		}
 	})
-	if !found {
-		return vlib.Case{}, false
+	if len(gs) != 2 {
+		return nil
 	}
 	var rec *render.Recorder
 	o = render.Guard(func() {
@@ -256,21 +276,12 @@ func cssCase(r *vlib.Rng) (vlib.Case, bool) {
 		rec = render.Draw(d, 1)
 	})
 	if o.Status != "ok" {
-		return vlib.Case{}, false
+		return nil
 	}
 	var trs [][]fl
 	for _, e := range rec.Events {
 		if e.Op == "Transform" {
 			trs = append(trs, e.Args)
-		}
-	}
-	has := len(trs) >= 3
-	outT := mt.Transform{}
-	if has {
-		a := trs[2]
-		outT = mt.New(a[0], a[1], a[2], a[3], a[4], a[5])
-		if !finiteT(outT) {
-			return vlib.Case{}, false
 		}
 	}
 	var tbl, tl []string
@@ -280,8 +291,26 @@ func cssCase(r *vlib.Rng) (vlib.Case, bool) {
 	for k := range tags {
 		tl = append(tl, k)
 	}
-	return vlib.Case{Kind: "css", Coq: fmt.Sprintf("CCssSrc %s %s %s %s %s", vlib.List(tbl), g, vlib.List(srcs), vlib.Bool(has), coqT(outT)),
-		Desc: map[string]interface{}{"html": html, "transform_calls": trs}, Nontrivial: true, Tags: tl}, true
+	// the two boxes are painted in tree order; a singular matrix sends no Transform call for
+	// either box (same function list), so the page has either 2 or 4 Transform events
+	has := len(trs) >= 4
+	if !has && len(trs) != 2 {
+		return nil
+	}
+	var out []vlib.Case
+	for i := 0; i < 2; i++ {
+		outT := mt.Transform{}
+		if has {
+			a := trs[2+i]
+			outT = mt.New(a[0], a[1], a[2], a[3], a[4], a[5])
+			if !finiteT(outT) {
+				return nil
+			}
+		}
+		out = append(out, vlib.Case{Kind: "css", Coq: fmt.Sprintf("CCssSrc %s %s %s %s %s", vlib.List(tbl), gs[i], vlib.List(srcs), vlib.Bool(has), coqT(outT)),
+			Desc: map[string]interface{}{"html": html, "box": i, "transform_calls": trs}, Nontrivial: true, Tags: tl})
+	}
+	return out
 }
 
 func main() {
@@ -563,7 +592,7 @@ func main() {
 			w.Add(vlib.Case{Kind: "svg", Coq: fmt.Sprintf("CSvg %s %s %s", vlib.List(tbl), vlib.List(srcs), coqT(res)),
 				Desc: map[string]interface{}{"attr": attr, "out": res}, Nontrivial: true, Tags: tl})
 		case k >= 20:
-			if c, ok := cssCase(r); ok {
+			for _, c := range cssCase(r) {
 				w.Add(c)
 			}
 		default: // viewBox / preserveAspectRatio
